@@ -112,6 +112,11 @@ type Scenario struct {
 	// that selects through the exported ServeMux.IQHandler / MessageHandler /
 	// PresenceHandler / Handler and calls what they return).
 	MuxVia   string    `json:"mux_via,omitempty"`
+	// ReqOnly (mux-reg only): for the payload of an incoming result/error IQ the
+	// multiplexer has handlers under the request types (get and set) only, of
+	// the kind several library packages register: they answer whatever they are
+	// handed without looking at its type.  A response must not reach them.
+	ReqOnly  bool      `json:"req_only,omitempty"`
 	Input    []string  `json:"input"` // raw top-level elements (and white space) sent by the peer
 	Programs []Program `json:"programs"`
 	// AppSends: the application transmits elements of its own while the stream
@@ -481,6 +486,9 @@ func gen(r *rand.Rand) Scenario {
 	if strings.HasPrefix(sc.Mode, "mux-") && r.Intn(3) == 0 {
 		sc.MuxVia = pick(r, "nested", "getters", "getters")
 	}
+	if sc.Mode == "mux-reg" && r.Intn(3) == 0 {
+		sc.ReqOnly = true
+	}
 	o := sess.Opts{S2S: sc.S2S, Received: sc.Received, Local: sc.Local}
 	local := o.Local
 	if local == "" {
@@ -626,6 +634,7 @@ type runState struct {
 	byKey    bool   // collision cases: elements are recognised by (id, type), not by order
 	invoked  []bool // per element: the serve loop handed it to the handler
 	extra    int    // byKey: invocations for elements that are not in exp
+	reqOnly  int    // request-type handlers registered for the payloads of incoming responses
 	appSent  []appSent
 	onWrite  func() // concurrent scenarios: called before every write of a program
 	onReturn func() // and when a program returns
@@ -1108,6 +1117,15 @@ func build(c *core.Case, sc Scenario) (p *sess.Pair, st *runState, outer xmpp.Ha
 		iqSeen["get|urn:c07:decoy|q"] = true
 		msgSeen := map[string]bool{}
 		otherSeen := map[xml.Name]bool{}
+		// payload names of the requests in the input (their programs keep their handlers)
+		reqPayload := map[xml.Name]bool{}
+		for _, n := range ref.Elems {
+			if t := n.Attr("type"); n.Name.Local == "iq" && t != "result" && t != "error" {
+				if ch := n.Children(); len(ch) > 0 {
+					reqPayload[ch[0].Name] = true
+				}
+			}
+		}
 		for _, n := range ref.Elems {
 			switch {
 			case n.Name.Space == ns && n.Name.Local == "iq":
@@ -1117,6 +1135,25 @@ func build(c *core.Case, sc Scenario) (p *sess.Pair, st *runState, outer xmpp.Ha
 				var pn xml.Name
 				if ch := n.Children(); len(ch) > 0 {
 					pn = ch[0].Name
+				}
+				if t := n.Attr("type"); sc.ReqOnly && (t == "result" || t == "error") && len(n.Children()) > 0 && !reqPayload[pn] {
+					for _, rt := range []stanza.IQType{stanza.GetIQ, stanza.SetIQ} {
+						rk := string(rt) + "|" + pn.Space + "|" + pn.Local
+						if iqSeen[rk] {
+							continue
+						}
+						iqSeen[rk] = true
+						st.reqOnly++
+						opts = append(opts, mux.IQFunc(rt, pn, func(iq stanza.IQ, t xmlstream.TokenReadEncoder, _ *xml.StartElement) error {
+							// unmarked on purpose: the judge takes it for what it is, an
+							// answer nobody asked this handler for (rq names its origin)
+							_, err := xmlstream.Copy(t, xmlstream.Wrap(nil, xml.StartElement{Name: xml.Name{Local: "iq"}, Attr: []xml.Attr{
+								{Name: xml.Name{Local: "type"}, Value: "result"}, {Name: xml.Name{Local: "id"}, Value: iq.ID},
+								{Name: xml.Name{Local: "rq"}, Value: "request-handler-" + string(iq.Type)}}}))
+							return err
+						}))
+					}
+					continue
 				}
 				k := n.Attr("type") + "|" + pn.Space + "|" + pn.Local
 				if iqSeen[k] {
@@ -1720,6 +1757,9 @@ func judge(c *core.Case, sc Scenario, o sess.Opts, st *runState, written []byte,
 			}
 		case cl.NoReply:
 			c.Count("must_not_be_answered", 1)
+			if st.reqOnly > 0 && cl.HasPayload && (cl.Name == "iq-result" || cl.Name == "iq-error") && len(added) == 0 {
+				c.Count("responses_kept_from_request_handlers_of_their_payload", 1)
+			}
 			if sc.MuxVia == "getters" && sc.Mode == "mux-unreg" && (cl.Name == "iq-result" || cl.Name == "iq-error") && len(added) == 0 {
 				c.Count("getters_unregistered_iq_reply_left_alone", 1)
 			}
